@@ -209,6 +209,31 @@ def handle (w cap digs : Nat) (op : String) (args : List String) (got : String) 
         (if anyNeg then ["few-neg-exp-sign-ignored"] else []))
     some { model := if tooLong && got == "err" then "err" else out pred,
            spec := if tooLong then spec ++ ["err"] else spec, tags := tags }
+  | "nt_mxp_lot", ms :: rest => do
+    let m ← pI w ms
+    let vals ← rest.mapM (pI w)
+    let rec pairsL : List Int → List (Int × Int)
+      | a :: b :: t => (a, b) :: pairsL t
+      | _ => []
+    let ps := pairsL vals
+    let tooLong := (ms :: rest).any long
+    let pred := NtMxp.mxpSimLot w ps m
+    let n := ps.length
+    let anyNeg := ps.any fun p => p.2 < 0
+    let math := fmt ((ps.foldl (fun acc p => acc * powModI p.1 p.2.natAbs m % m) (1 % m)) % m)
+    -- specification: Π a_i^b_i mod m for exponents ≥ 0 and m > 1; an even modulus may be refused; negative exponents / m ≤ 0: model alone
+    let spec : List String :=
+      if m = 1 then ["0:u1"]
+      else if m ≤ 0 ∨ anyNeg then [out pred]
+      else if m % 2 = 0 then [math, "err"]
+      else [math]
+    let tags := ["mxp-lot", "lot-n=" ++ toString n, "lot-blocks=" ++ toString (n / 8),
+        if n % 8 = 0 then "lot-rest-none" else if n % 8 = 1 then "lot-rest-single-bn_mxp" else "lot-rest-few"] ++
+      (if m = 1 then ["lot-m=1"] else if m ≤ 0 then ["lot-m<=0"] else if m % 2 = 0 then [if pred.isSome then "lot-even-m-value" else "lot-even-m-err"] else
+        (if ps.any (fun p => p.2 = 0) then ["lot-zero-exp"] else []) ++
+        (if anyNeg then ["lot-neg-exp"] else []))
+    some { model := if tooLong && got == "err" then "err" else out pred,
+           spec := if tooLong then spec ++ ["err"] else spec, tags := tags }
   | _, _ => none
 
 end Driver.C09Mxp
